@@ -73,7 +73,7 @@ def _random_blocks(rng, nx, n_stretch, n_match):
 
 
 def make_case(rng, double=False, nx=None, nt=None, span=None, n_baths=None, n_stretch=None, nta=0, n_match=0,
-              noise=None, var_kind=None, irregular=None, shuffle=True, j_config=None, layout=None, atten=None):
+              noise=None, var_kind=None, irregular=None, shuffle=True, j_config=None, layout=None, atten=None, trans_order=None):
     """returns a Case with .ds, .sections [(key, [(a, b), ...])], .trans_att, .matching [(hs, ts, rev)], .truth, .var_args"""
     c = Case()
     nx = nx or rng.randint(12, 40)
@@ -163,7 +163,7 @@ def make_case(rng, double=False, nx=None, nt=None, span=None, n_baths=None, n_st
         s = x[i] if rng.random() < 0.4 else x[i] - 0.5 * (x[i] - x[i - 1])
         trans.append(float(s))
     trans.sort()
-    if len(trans) >= 2 and layout is None and rng.random() < 0.5:
+    if len(trans) >= 2 and ((layout is None and trans_order is None and rng.random() < 0.5) or trans_order == "desc"):
         trans.reverse()   # splices may be listed in any order; every result is labelled by the listed order
     # --- intensities
     gamma = 482.6 + r.normal(0, 2)
